@@ -481,6 +481,47 @@ def mon_start(events, steps):
     return None
 
 
+def mon_never_idle(events, steps):
+    """progress, one step at a time: at the end of every step an ALIVE consumer (start() accepted, its Deferred not
+    fired, no stop() / shutdown() called since - by the application or from inside the processor) whose processor is
+    not running (no invocation in progress, no result pending) has a request outstanding or a refetch timer armed:
+    it never sits idle, so the next message in the log is eventually asked for."""
+    rk, tm = None, False
+    alive = False
+    pw = ProcWindow()
+    for i, (ev, outs) in enumerate(zip(events, steps)):
+        t = ev[0]
+        accepted = not (outs and outs[0][0] == OUT_IGNORED)
+        if t == EV_START and accepted and any(o[0] == OUT_RET for o in outs):
+            alive = True
+            rk, tm = None, False
+        elif t in (EV_STOP, EV_SHUTDOWN):
+            alive = False
+        elif t in (EV_REQ_OK, EV_FETCH_OK, EV_REQ_FAIL) and accepted:
+            rk = None
+        elif t == EV_FIRE_RETRY and accepted:
+            tm = False
+        pw.event(ev, accepted)
+        for o in outs:
+            tag = o[0]
+            if tag == OUT_CALLPROC and pw.plan and pw.plan[0][0] in (1, 3):
+                alive = False                    # this invocation calls stop() / shutdown()
+            pw.out(o)
+            if tag in (OUT_OFFREQ, OUT_OFFFETCH, OUT_FETCH):
+                rk = tag
+            elif tag == OUT_CANCEL_REQ and o[1] != R_COMMIT:
+                rk = None
+            elif tag == OUT_SCHED and o[1] == T_RETRY:
+                tm = True
+            elif tag == OUT_CANCEL_TIMER and o[1] == T_RETRY:
+                tm = False
+            elif tag == OUT_START_D:
+                alive = False
+        if alive and pw.st is None and rk is None and not tm:
+            return "step %d: the consumer is alive, its processor is not running, and it has neither a request outstanding nor a refetch timer armed" % i
+    return None
+
+
 def mon_values(values_seen, entries):
     """every message handed to the processor carries the key, value and absolute offset the broker stores"""
     truth = dict((o, (k, v)) for (o, k, v) in entries)
